@@ -70,7 +70,16 @@ pub fn corpus_entries() -> Vec<String> {
         .unwrap_or_else(|e| vcommon::machinery(&format!("cannot read {dir:?}: {e}")))
         .filter_map(|e| e.ok())
         .map(|e| e.file_name().to_string_lossy().into_owned())
-        .filter(|n| n.ends_with(".wit") || dir.join(n).is_dir())
+        .filter_map(|n| {
+            // discovery rule of crates/test/src/lib.rs: `*.wit` files, or directories with a `wit/` sub-directory
+            if n.ends_with(".wit") && dir.join(&n).is_file() {
+                Some(n)
+            } else if dir.join(&n).join("wit").is_dir() {
+                Some(format!("{n}/wit"))
+            } else {
+                None
+            }
+        })
         .collect();
     v.sort();
     v
@@ -265,6 +274,12 @@ pub const POSITIONS: &[&str] = &[
 /// One world in which `name` occupies naming position `pos` (or every position for `all`);
 /// every other name is a benign two-letter word.  The interface is both imported and exported.
 pub fn named_world(name: &str, pos: &str) -> String {
+    named_world_ex(name, pos, true)
+}
+
+/// `pkg_too = false`: in `all` mode keep namespace and package benign (WIT keywords cannot be
+/// escaped there and upper-case words are not valid in package names).
+pub fn named_world_ex(name: &str, pos: &str, pkg_too: bool) -> String {
     let p = |which: &str, benign: &str| -> String {
         if pos == "all" || pos == which {
             name.to_string()
@@ -272,8 +287,11 @@ pub fn named_world(name: &str, pos: &str) -> String {
             benign.to_string()
         }
     };
-    let ns = p("namespace", "nsx");
-    let pkg = p("package", "pkx");
+    let (ns, pkg) = if pos == "all" && !pkg_too {
+        ("nsx".to_string(), "pkx".to_string())
+    } else {
+        (p("namespace", "nsx"), p("package", "pkx"))
+    };
     let iface = p("interface", "ifx");
     let world = if pos == "all" { format!("{name}-wo") } else { p("world", "wox") };
     let ty = p("type", "tyx");
@@ -286,6 +304,8 @@ pub fn named_world(name: &str, pos: &str) -> String {
     let param = p("param", "pax");
     let res = p("resource", "rex");
     let method = p("method", "mex");
+    // a method cannot have an explicit parameter called `self`
+    let mparam = if param == "self" { "pax".to_string() } else { param.clone() };
     // in `all` mode the record, the resource, the function … would all be called `name`
     // inside one interface, which WIT rejects for types; give the non-record types a suffix.
     let (res_n, en_n, va_n, fl_n) = if pos == "all" {
@@ -303,11 +323,12 @@ interface %{iface} {{
   flags %{fl_n} {{ %{flag}, other-flag }}
   resource %{res_n} {{
     constructor(%{param}: u32);
-    %{method}: func(%{param}: string) -> u32;
+    %{method}: func(%{mparam}: string) -> u32;
     %{method}-s: static func(%{param}: u32) -> %{res_n};
   }}
   %{func}: func(%{param}: %{ty}, b: %{en_n}, c: %{va_n}, d: %{fl_n}) -> %{ty};
   %{func}-r: func(%{param}: borrow<%{res_n}>, o: option<u32>) -> result<%{res_n}, string>;
+  %{func}-two: func(first: string, %{param}: list<u8>, third: list<string>) -> string;
 }}
 
 world %{world} {{
@@ -325,7 +346,17 @@ pub fn named_cases(alphabet: &[&str], positions: &[&str], family: &'static str) 
     let mut v = Vec::new();
     for n in alphabet {
         for p in positions {
-            v.push(Case::inline(format!("name:{n}:{p}"), family, named_world(n, p)));
+            let mut c = Case::inline(format!("name:{n}:{p}"), family, named_world(n, p));
+            // package names: WIT keywords cannot be escaped there, and upper-case words are
+            // accepted by wit-parser but rejected by the component binary format
+            let upper = n.chars().any(|c| c.is_ascii_uppercase());
+            if (*p == "namespace" || *p == "package") && upper {
+                continue;
+            }
+            if *p == "all" && (upper || load(&c).is_err()) {
+                c = Case::inline(format!("name:{n}:{p}"), family, named_world_ex(n, p, false));
+            }
+            v.push(c);
         }
     }
     v
@@ -400,13 +431,13 @@ pub fn type_families(with_fixed: bool, with_errctx: bool) -> Vec<(String, String
     let mut names = Vec::new();
     for n in [1usize, 2, 256, 257] {
         let cases: Vec<String> = (0..n).map(|i| format!("c{i}")).collect();
-        decl.push_str(&format!("  enum e{n} {{ {} }}\n", cases.join(", ")));
-        names.push(format!("e{n}"));
+        decl.push_str(&format!("  enum en{n} {{ {} }}\n", cases.join(", ")));
+        names.push(format!("en{n}"));
     }
     for n in [1usize, 8, 9, 16, 17, 32] {
         let cases: Vec<String> = (0..n).map(|i| format!("b{i}")).collect();
-        decl.push_str(&format!("  flags f{n} {{ {} }}\n", cases.join(", ")));
-        names.push(format!("f{n}"));
+        decl.push_str(&format!("  flags fl{n} {{ {} }}\n", cases.join(", ")));
+        names.push(format!("fl{n}"));
     }
     fam.push(("enum-flags".into(), decl, names));
 
@@ -494,7 +525,7 @@ pub fn type_world(fam: &str, decls: &str, tys: &[String]) -> String {
         }
     }
     format!(
-        "package ty:{fam};\n\ninterface tys {{\n{decls}{iface}}}\n\nworld w {{\n{wty}  import tys;\n{wimp}  export tys;\n{wexp}}}\n",
+        "package ty:fam{fam};\n\ninterface tys {{\n{decls}{iface}}}\n\nworld w {{\n{wty}  import tys;\n{wimp}  export tys;\n{wexp}}}\n",
         fam = fam.replace('-', "")
     )
 }
@@ -707,7 +738,7 @@ pub fn c_collision_cases() -> Vec<Case> {
     // two interfaces whose <namespace>_<package>_<interface> prefixes coincide after mangling
     add(
         "pkg-iface-split",
-        "package a:b-foo {\n  interface bar {\n    f: func() -> u32;\n  }\n}\n\npackage a:b {\n  interface foo-bar {\n    f: func() -> u32;\n  }\n  world w {\n    import foo-bar;\n    import a:b-foo/bar;\n  }\n}\n",
+        "package a:b;\n\npackage a:b-foo {\n  interface bar {\n    f: func() -> u32;\n  }\n}\n\ninterface foo-bar {\n  f: func() -> u32;\n}\n\nworld w {\n  import foo-bar;\n  import a:b-foo/bar;\n}\n",
     );
     add(
         "iface-func-split",
